@@ -209,6 +209,28 @@ pub fn gen(seed: u64, thorough: bool, o: &mut Out) -> Vec<String> {
             o.sample(format!("row new {} {} {}", m, n, c));
         }
     }
+    // 2b. force-full-r: the rows that need the most PRBS draws (M with many factors of 2 correlate with the LFSR);
+    //     for each such M the coded-fragment numbers with the highest draw counts, found with the independent generator
+    if cfg!(feature = "ffr") {
+        let ms: Vec<u64> = if thorough { (1..=40u64).map(|i| 32 * i).chain([68, 100, 136, 1536, 2048, 4096]).collect() } else { vec![64, 68, 96, 128, 192, 256, 288, 320, 384, 512] };
+        for m in ms {
+            let step = if thorough || m <= 320 { 1 } else { 3 };
+            let mut best: Vec<(usize, u64)> = vec![];
+            let mut n = 1u64;
+            while n <= 16383 {
+                if let Some(d) = crate::rows::ffr_draws(n as u32, m as usize) {
+                    best.push((d, n));
+                }
+                n += step;
+            }
+            best.sort();
+            best.reverse();
+            for (_, n) in best.iter().take(if thorough { 6 } else { 3 }) {
+                push3(&mut q, m, *n, o);
+                o.stat("ffr-most-draws-queries");
+            }
+        }
+    }
     // 3. edges: the asserts, M = 0, the largest geometry, u32 wrap-around of the seed (std only:
     //    with force-full-r the wrapped seed 0 (N = 1240005543) never yields a second distinct draw and the call hangs)
     for (m, n) in [(0u64, 1u64), (1, 1), (16384, 1), (16384, 16383), (16383, 16383), (16385, 1), (5, 0), (16, 0), (20000, 3)] {
